@@ -1,2 +1,43 @@
--- C09 property theorems (to be written)
-import Nq.Basic
+/-
+  C09 — Remote delivery verdicts are sound for every server behaviour.
+
+  Models: `Nq.RemoteSmtp.smtpRun` (qmail-remote.c `smtp()`, `smtpcode()`, `quit()`, `dropped()`,
+  `outsmtptext()`; `blast()` is `Nq.SmtpOut.rblast`) and `Nq.RspawnReport.rreport`
+  (qmail-rspawn.c `report()`), tied to the source by `harness/c09_remote.c`.
+  The predicates (`expect`, `verdictOK`, `kSound`, `rcptOrder`, `rspawnSound`, `rspawnClasses`,
+  `noUpgrade`) are in `Nq.Spec.RemoteVerdict`; compiled, they are the oracle of the driver.
+  Only property theorems live here.
+
+  The server is `sc : Script`: every byte it ever sends (`stream`; reads past the end fail, which
+  is what both a disconnect and a stall look like to the client) and the write that fails, if any.
+  `abstr a sc` is the script as the client sees it: the code of each reply it delimits, in order.
+-/
+import Nq.Lemmas.RemoteSmtp
+
+namespace Nq.Props.C09
+open Nq Nq.SmtpOut Nq.RemoteSmtp Nq.RspawnReport Nq.Spec.RemoteVerdict Nq.Lemmas.RemoteSmtp
+
+/-- **Verdict classes.** For every server script, the message report has the class the rules
+require (`expect`: the first decisive event wins — greeting ≠ 220 / HELO ≠ 250 → Z; MAIL, DATA,
+final-dot reply ≥ 500 → D, 400..499 → Z; every RCPT refused → D; unreadable message → Z, partial
+last line → D; any failed read or write → Z "connection died", flagged "Possible duplicate!" when it
+happens between the final flush and the reply to the dot; otherwise K), and the per-recipient reports
+are exactly the classes (`r`/`s`/`h`) the rules give, in order. -/
+theorem C09_classes (a : Args) (sc : Script) :
+    verdictOK (expect (abstr a sc)).v (obsOf (smtpRun a sc)) = true ∧
+    (obsOf (smtpRun a sc)).rl = (expect (abstr a sc)).rl :=
+  run_good a sc.wfail _
+
+/-- **K is sound.** The message is reported `K` only if the greeting was 220, the HELO reply 250,
+the replies to MAIL, DATA and the final dot below 400, there is one report per recipient and at least
+one of them is `r`, no write failed, and the message was read completely and ends with a newline. -/
+theorem C09_K_sound (a : Args) (sc : Script) : kSound (abstr a sc) (obsOf (smtpRun a sc)) = true :=
+  kSound_of_good _ _ (run_good a sc.wfail _)
+
+/-- **Recipient reports in argument order.** Never more reports than recipient arguments; the `i`-th
+report is the class of the reply to the `i`-th RCPT (reply number `3+i` of the conversation); there are
+none unless greeting, HELO and MAIL were accepted. -/
+theorem C09_rcpt_order (a : Args) (sc : Script) : rcptOrder (abstr a sc) (obsOf (smtpRun a sc)) = true :=
+  rcptOrder_of_good _ _ (run_good a sc.wfail _)
+
+end Nq.Props.C09
